@@ -102,6 +102,60 @@ theorem remove_out_of_range (cfg : Cfg) (w : World) (v i : Nat) (k : Sink) (d : 
   have : ¬ i < d.len := by omega
   simp [step, getVec, hl, hlt, hd, this]
 
+/-- `swap_remove(i)`: slot `i` takes the last element, the vector shrinks by one; the removed
+element is the one destroyed. -/
+theorem swap_remove_swaps (cfg : Cfg) (w : World) (v i id : Nat) (d : VecSt)
+    (hv : w.vecs[v]? = some d) (hl : d.live = true) (hwf : d.WF) (hi : i < d.len)
+    (hc : d.cells.get i = .val id) (hf : w.fault = none) :
+    let r := step cfg (.swapRemove v i .drop) w
+    r.2 = .ok [] ∧
+      r.1.vis v = ((w.vis v).set i (d.cells.get (d.len - 1))).take (d.len - 1) ∧
+      (∀ u, u ≠ v → r.1.vis u = w.vis u) ∧ r.1.dropLog = id :: w.dropLog ∧ r.1.held = w.held := by
+  have hlt : v < w.vecs.length := (List.getElem?_eq_some_iff.mp hv).1
+  have hd : w.vecs[v] = d := (List.getElem?_eq_some_iff.mp hv).2
+  intro r
+  have hr' := swap_remove_drop_exec cfg w v i id d hv hl hwf hi hc hf
+  rw [show r = _ from hr']
+  refine ⟨rfl, ?_, ?_, rfl, rfl⟩
+  · simp [World.vis, hlt, VecSt.swapRemoveAt_abs _ _ hwf hi, hd]
+  · intro u hu
+    simp [World.vis, List.getElem?_set, Ne.symm hu]
+
+/-- `pop()`: the last element leaves and is the one destroyed; `pop` on an empty vector is `None`
+and changes nothing. -/
+theorem pop_pops (cfg : Cfg) (w : World) (v id : Nat) (d : VecSt)
+    (hv : w.vecs[v]? = some d) (hl : d.live = true) (hwf : d.WF) (hne : d.len ≠ 0)
+    (hc : d.cells.get (d.len - 1) = .val id) (hf : w.fault = none) :
+    let r := step cfg (.pop v .drop) w
+    r.2 = .ok [] ∧ r.1.vis v = (w.vis v).take (d.len - 1) ∧ r.1.dropLog = id :: w.dropLog ∧ r.1.held = w.held := by
+  have hlt : v < w.vecs.length := (List.getElem?_eq_some_iff.mp hv).1
+  have hd : w.vecs[v] = d := (List.getElem?_eq_some_iff.mp hv).2
+  intro r
+  have hr' := pop_drop_exec cfg w v id d hv hl hwf hne hc hf
+  rw [show r = _ from hr']
+  refine ⟨rfl, ?_, rfl, rfl⟩
+  simp [World.vis, hlt, hd, VecSt.abs, List.take_take]
+
+theorem pop_empty (cfg : Cfg) (w : World) (v : Nat) (k : Sink) (d : VecSt)
+    (hv : w.vecs[v]? = some d) (hl : d.live = true) (he : d.len = 0) :
+    step cfg (.pop v k) w = (w, .ok ["N"]) := by
+  have hlt : v < w.vecs.length := (List.getElem?_eq_some_iff.mp hv).1
+  have hd : w.vecs[v] = d := (List.getElem?_eq_some_iff.mp hv).2
+  simp [step, getVec, hl, hlt, hd, he]
+
+/-- `clear()` empties the vector and destroys exactly its elements, in order -/
+theorem clear_clears (cfg : Cfg) (w : World) (v : Nat) (d : VecSt)
+    (hv : w.vecs[v]? = some d) (hl : d.live = true) (hwf : d.WF) (hinit : d.Init) (hf : w.fault = none) :
+    let r := step cfg (.clear v) w
+    r.2 = .ok [] ∧ r.1.vis v = [] ∧ r.1.dropLog = d.ids.reverse ++ w.dropLog ∧ r.1.held = w.held := by
+  have hlt : v < w.vecs.length := (List.getElem?_eq_some_iff.mp hv).1
+  intro r
+  rw [show r = _ from clear_exec cfg w v d hv hl hwf hinit hf]
+  refine ⟨rfl, ?_, ?_, ?_⟩
+  · simp [World.vis, hlt, VecSt.abs]
+  · simp [World.logDrops_dropLog]
+  · simp
+
 /-! non-vacuity: a concrete world meeting the hypotheses -/
 def sampleVec : VecSt :=
   { ty := 0, size := 8, align := 8, hasDrop := true, cloneable := true, bk := .heap, cap := 4,
